@@ -501,10 +501,11 @@ impl UnixStr {
         if next_slash_back == 0 {
             next_slash_back += 1;
         }
+        // The parent is everything before the separator (or the root slash itself), terminated
         unsafe {
-            Some(UnixString(
-                self.0.get_unchecked(..=next_slash_back).to_vec(),
-            ))
+            let mut parent = self.0.get_unchecked(..next_slash_back).to_vec();
+            parent.push(NULL_BYTE);
+            Some(UnixString(parent))
         }
     }
 }
